@@ -1,13 +1,14 @@
 CONSTANTS
   Fam = "mac"
   NM = 1
-  KindSet = {"f1", "f2", "fv", "f1v"}
+  KindSet = {"obj", "f0", "f1", "f2", "fv", "f1v"}
   MaxBody = 3
   MaxInv = 6
-  BodyAlpha = {"#x", "#y", "#V", "x", "a"}
-  InvAlpha = {"f", "a", "1", "(", ")", ",", "S1", "S2", "C1", "C2"}
-  VarWs = TRUE
+  BodyAlpha = {"x", "y", "V", "#x", "#y", "#V", "#", "##", "f", "a", "1", "("}
+  InvAlpha = {"f", "a", "(", ")", ","}
+  VarWs = FALSE
   InvHead = TRUE
+  InvBal = TRUE
   NameScheme = 1
   MaxLines = 1
   MaxNest = 1
